@@ -50,7 +50,7 @@ theorem spec_maildirWrite (env : PEnv) (md : Maildir) (ms : MsgSt) {fid0 : Nat} 
     (fa : FileAt w fid0 c0) (hfd : ∀ h, ms.fd = some h → h < w.handles.length) :
     wpo (maildirWrite env md ms)
       (fun r w' => r.2 = false →
-        r.1.msg = ms.msg ∧ w.handles.length ≤ w'.handles.length ∧
+        r.1.msg = ms.msg ∧ r.1.parts = ms.parts ∧ w.handles.length ≤ w'.handles.length ∧
         ∃ h fid, r.1.fd = some h ∧ w.handles.length ≤ h ∧ w'.obj h = .file fid 0 false ∧
           FileAt w' fid (messageWrite ms.msg).1) w := by
   unfold maildirWrite gennameStart
@@ -171,7 +171,7 @@ theorem spec_maildirWrite (env : PEnv) (md : Maildir) (ms : MsgSt) {fid0 : Nat} 
       | none =>
         simp only [ret_bind, Bool.false_eq_true, if_false]
         intro _
-        exact ⟨rfl, by omega, _, _, rfl, hlen4, hobj5, fa5⟩
+        exact ⟨rfl, rfl, by omega, _, _, rfl, hlen4, hobj5, fa5⟩
       | some old =>
         simp only [bind_eq, pure_eq, call_bind, ret_bind, Bool.false_eq_true, if_false]
         intro rcl _
@@ -179,7 +179,7 @@ theorem spec_maildirWrite (env : PEnv) (md : Maildir) (ms : MsgSt) {fid0 : Nat} 
         intro _
         have hol : Nat.lt old w.handles.length := hfd old hold
         have hne : w4.handles.length ≠ old := Nat.ne_of_gt (Nat.lt_of_lt_of_le hol hlen4)
-        refine ⟨rfl, ?_, _, _, rfl, hlen4, ?_, fa5.step (.close old) rcl trivial⟩
+        refine ⟨rfl, rfl, ?_, _, _, rfl, hlen4, ?_, fa5.step (.close old) rcl trivial⟩
         · have := core_len w5 (.close old) rcl
           rw [stepWorld_handles]; omega
         · rw [stepWorld_obj, core_close, obj_setObj]
